@@ -13,6 +13,7 @@ def run(ctx: Ctx) -> None:
         T.run_composites(ctx)
         S.run_transformers(ctx)
         T.run_generic(ctx)
+        T.run_point_vs_grid_route(ctx)
     from ..tables import t2_rot
     with ctx.only("T2.euler-matrix"):  # parameter -> matrix map of EulerRotation for every order and notation (shared with C08)
         t2_rot.run_euler(ctx)
@@ -24,6 +25,7 @@ def run(ctx: Ctx) -> None:
                                 only_kinds=("callable",))
     ctx.floor("T6x.call-fresh", 2)
     ctx.floor("T67.generic", 12)
+    ctx.floor("T67.point-vs-grid", 2)
     ctx.floor("T12.identity", 40)
     ctx.floor("T67.views", 20)
     ctx.floor("T67.derived-views", 12)
@@ -69,6 +71,7 @@ def mutants(prog):
         ("data(): buffers of the original cleared instead of the copy's", P, "ParametricTransform.data", "copy.clear_buffers()\n    return copy", "self.clear_buffers()\n    return copy", "T67.derived-views"),
         ("disp: flag-only difference not re-expressed", B, "SpatialTransform.disp", "if grid != self.grid() or grid.align_corners() != self.align_corners():", "if grid != self.grid():", "T67.views"),
         ("svf update: velocity evaluated before the predicted parameters are refreshed", "deepali.spatial.nonrigid", "StationaryVelocityFieldTransform.update", "super().update()\n    v = self.evaluate()", "v = self.evaluate()\n    super().update()", "T6x."),
+        ("sample_flow: zero padding by default", "deepali.core.flow", "sample_flow", "padding = PaddingMode.BORDER", "padding = PaddingMode.ZEROS", "T67.point-vs-grid"),
     ]
     for name, mod, fn, old, new, expect in specs:
         ov = source_sub(prog, mod, fn, old, new)
